@@ -64,16 +64,22 @@ class Ref:
         e, r, v = self.sat.sgp4_tsince(tsince_min)
         return e, tuple(x * KM for x in r), tuple(x * KM for x in v)
 
-    def rates(self, tsince_min, h_s=50e-6):
-        """Central finite-difference rates of change of the reference output with time over +-h_s seconds:
-        (|dr/dt| [m/s], |dv/dt| [m/s^2]).  For a smooth model they equal |v| and |a|; where the theory's position is
-        not the integral of its velocity (deep-space periodics at sin i -> 0) they are larger."""
-        h = h_s / 60.0
-        e1, r1, v1 = self.state(tsince_min - h)
-        e2, r2, v2 = self.state(tsince_min + h)
-        if e1 or e2:
-            return 0.0, 0.0
-        return (math.dist(r1, r2) / (2 * h_s), math.dist(v1, v2) / (2 * h_s))
+    def rates(self, tsince_min, h_s=50e-6, steps=10):
+        """Lipschitz constants of the reference output with respect to time over the window +-h_s seconds, measured on the
+        reference itself: the largest step rate over `steps` equal sub-intervals, (max |dr|/dt [m/s], max |dv|/dt [m/s^2]).
+        For a smooth model they equal |v| and |a|.  Where the theory's position is not the integral of its velocity, or is
+        not even continuous at this scale (deep-space lunar-solar periodics divided by sin i at i = 180 deg exactly:
+        decimetre jumps), they are larger -- and only then."""
+        dt_s = 2.0 * h_s / steps
+        pts = []
+        for k in range(steps + 1):
+            e, r, v = self.state(tsince_min + (-h_s + k * dt_s) / 60.0)
+            if e:
+                return 0.0, 0.0
+            pts.append((r, v))
+        lr = max(math.dist(pts[k][0], pts[k + 1][0]) for k in range(steps)) / dt_s
+        lv = max(math.dist(pts[k][1], pts[k + 1][1]) for k in range(steps)) / dt_s
+        return lr, lv
 
     def conditioning(self, tsince_min, rel=1e-9):
         """Sensitivity of the reference state to relative perturbations of its real-valued inputs:
